@@ -21,7 +21,13 @@ PLANS = {
     "C13": [("redirect", 300, 7000), ("redirunk", 150, 3000)],
     "C15": [("bclose", 300, 7000), ("redirunk", 150, 3000)],
     "C16": [("timeout", 400, 10000)],
+    "C06": [("base", 120, 3000), ("fwdonly", 120, 3000)],
+    "C08": [],
 }
+
+
+# properties decided with the event-loop machinery but without a model configuration of their own
+MC_OF = {"C06": "C07", "C08": "C01"}
 
 
 def _stims(sc):
@@ -55,6 +61,10 @@ def nontrivial(pid, sc):
         return any(s["op"] == "bclose" for s in st) or any(s["op"] == "answer" and s["to"].startswith("127.") for s in st)
     if pid == "C16":
         return any(s["op"] == "expire" for s in st)
+    if pid == "C06":
+        return any(r["k"] in ("mget", "del", "mset") and len(r["slots"]) >= 2 for r in reqs)
+    if pid == "C08":
+        return any(s.get("cuts") for s in st)
     return True
 
 
@@ -71,7 +81,8 @@ def run(pid, tier, seed):
                "nontrivial": 0, "distinct": set(), "other": {}, "samples": [], "harness_errors": [],
                "model": [], "conformance": {"accepted": 0, "drift": [], "unchecked": 0}, "generated": 0}
         # 1. the design: exhaustive TLC run of the model for this property's configuration
-        for cfgname in (["MC_%s.cfg" % pid] if q else ["MC_%s.cfg" % pid, "MC_%st.cfg" % pid]):
+        mcp = MC_OF.get(pid, pid)
+        for cfgname in (["MC_%s.cfg" % mcp] if q else ["MC_%s.cfg" % mcp, "MC_%st.cfg" % mcp]):
             mc = common.model_check(cfgname)
             if not mc["ok"]:
                 raise Inconclusive("the design model does not satisfy its invariants under %s (a defect of the model "
@@ -83,10 +94,10 @@ def run(pid, tier, seed):
         groups = []
         gen = []
         for k in range(1 if q else 4):
-            gen += gen_tlc.scenarios(pid, GEN_N[0] if q else GEN_N[1] // 4, seed * 1000 + k)
+            gen += gen_tlc.scenarios(mcp, GEN_N[0] if q else GEN_N[1] // 4, seed * 1000 + k)
         cov["generated"] = len(gen)
         tmo = "TRUE" if pid == "C16" else "FALSE"
-        groups.append((gen_tlc.cfg_for(pid), gen, "tlc", {"TimeoutOn": tmo}))
+        groups.append((gen_tlc.cfg_for(mcp), gen, "tlc", {"TimeoutOn": tmo}))
         # 3. random walks over the same stimulus alphabet
         for prof, nq, nt in PLANS[pid]:
             n = nq if q else nt
@@ -97,11 +108,19 @@ def run(pid, tier, seed):
             conf_consts = {"TimeoutOn": "TRUE" if gen_core.PROFILES[prof].get("timeout") else "FALSE"}
             groups.append((gen_core.cfg_for(prof), plain[:ncf], "rwc-" + prof, conf_consts))
             groups.append((gen_core.cfg_for(prof), rest, "rw-" + prof, None))
+        grp = {}
+        if pid == "C06":
+            groups.append(({"masters": 3, "mode": "step"}, gen_core.gen_split(seed, 300 if q else 8000, 12 if q else 60), "split", None))
+        if pid == "C08":
+            c8 = {"masters": 3, "mode": "step"}
+            per = 24 if q else 60
+            groups.append((c8, gen_core.gen_seg(seed, 16 if q else 300, per, common.slot_tags(c8)), "seg", None))
+            grp["seg"] = per + 1
         viol = []
         for cfg, scs, tag, conform in groups:
             if not scs:
                 continue
-            r = common.replay_and_validate(cfg, scs, wd, tag, conform=conform)
+            r = common.replay_and_validate(cfg, scs, wd, tag, conform=conform, group=grp.get(tag, 1))
             cov["states"] += r["states"]
             cov["transitions"] += r["transitions"]
             cov["traces"] += r["traces"]
